@@ -624,7 +624,9 @@ func initIPSetMap(polices []policy) map[string]*ipsetTable {
 
 func (p *PolicyManager) createIPSet(newIPSetMap map[string]*ipsetTable) error {
 	for name, set := range newIPSetMap {
-		if err := p.ipsetHandle.CreateSet(&set.IPSet, true); err != nil {
+		// CreateSet fills defaults into the struct it is given, the tables are shared with other goroutines
+		ipSet := set.IPSet
+		if err := p.ipsetHandle.CreateSet(&ipSet, true); err != nil {
 			return fmt.Errorf("failed to create ipset %s %s: %v", set.Name, string(set.SetType), err)
 		}
 		oldEntries, err := p.ipsetHandle.ListEntries(name)
